@@ -5,8 +5,6 @@ type nat =
 | O
 | S of nat
 
-val option_map : ('a1 -> 'a2) -> 'a1 option -> 'a2 option
-
 val fst : ('a1 * 'a2) -> 'a1
 
 val snd : ('a1 * 'a2) -> 'a2
@@ -33,8 +31,6 @@ type n =
 
 module Nat :
  sig
-  val eqb : nat -> nat -> bool
-
   val leb : nat -> nat -> bool
 
   val ltb : nat -> nat -> bool
@@ -52,10 +48,6 @@ module Coq_Pos :
  sig
   val succ : positive -> positive
 
-  val add : positive -> positive -> positive
-
-  val add_carry : positive -> positive -> positive
-
   val pred_double : positive -> positive
 
   type mask = Pos.mask =
@@ -72,8 +64,6 @@ module Coq_Pos :
   val sub_mask : positive -> positive -> mask
 
   val sub_mask_carry : positive -> positive -> mask
-
-  val mul : positive -> positive -> positive
 
   val size : positive -> positive
 
@@ -96,11 +86,7 @@ module N :
 
   val double : n -> n
 
-  val add : n -> n -> n
-
   val sub : n -> n -> n
-
-  val mul : n -> n -> n
 
   val compare : n -> n -> comparison
 
@@ -135,19 +121,7 @@ val ascii_of_N : n -> char
 
 val ascii_of_nat : nat -> char
 
-val n_of_digits : bool list -> n
-
-val n_of_ascii : char -> n
-
-val nat_of_ascii : char -> nat
-
 val map : ('a1 -> 'a2) -> 'a1 list -> 'a2 list
-
-val flat_map : ('a1 -> 'a2 list) -> 'a1 list -> 'a2 list
-
-val fold_left : ('a1 -> 'a2 -> 'a1) -> 'a2 list -> 'a1 -> 'a1
-
-val existsb : ('a1 -> bool) -> 'a1 list -> bool
 
 val forallb : ('a1 -> bool) -> 'a1 list -> bool
 
@@ -171,8 +145,6 @@ type err =
 type 'a result =
 | OK of 'a
 | Error of err
-
-val bind : 'a1 result -> ('a1 -> 'a2 result) -> 'a2 result
 
 val err_name : err -> char list
 
@@ -209,8 +181,6 @@ val d_str : sexp -> char list option
 val d_list : (sexp -> 'a1 option) -> sexp list -> 'a1 list option
 
 val d_strs : sexp -> char list list option
-
-val d_bool : sexp -> bool option
 
 val bad_input : sexp
 
@@ -288,256 +258,5 @@ val builtin_names : (char list * char list) list
 val documented : char list list
 
 val math_env : menv
-
-val is_word : char -> bool
-
-val snoc : char list -> char -> char list
-
-val flush : char list -> char list -> char list -> char list
-
-val sub_run : char list -> char list -> char list -> char list -> char list
-
-val subst_word : char list -> char list -> char list -> char list
-
-type hole =
-| HCont
-| HType
-| HTok
-
-type piece =
-| PLit of char list
-| PHole of hole
-| PArg
-
-type pattern = piece list
-
-type henv = { e_cont : char list; e_type : char list; e_tok : char list }
-
-val hole_val : henv -> hole -> char list
-
-val inst : henv -> char list -> pattern -> char list
-
-val fstring : henv -> pattern -> char list
-
-val merge_lits : pattern -> pattern
-
-type ckind =
-| KSingle
-| KColl
-
-type cclass = { cc_name : char list; cc_kind : ckind; cc_str : pattern;
-                cc_token : pattern option; cc_pd_type : nat; cc_pd_elem : 
-                nat }
-
-type cspec = { cs_backend : char list; cs_name : char list;
-               cs_includes : char list list; cs_kind : ckind;
-               cs_type : char list; cs_pd_type : nat; cs_elem : char list;
-               cs_pd_elem : nat; cs_str : pattern; cs_token : pattern option;
-               cs_libs : char list list }
-
-val type_env : char list -> henv
-
-val cont_str : cspec -> char list
-
-val token_type : cspec -> char list option
-
-type token_alloc =
-| TokNone
-| TokPerClass
-| TokPerCall
-
-type coder = { cd_lines : pattern list; cd_alloc : token_alloc;
-               cd_init : pattern option }
-
-type mdkind = { mk_type : char list; mk_keys : char list list;
-                mk_bname : char list; mk_coll : cclass;
-                mk_single : cclass option; mk_libs : bool; mk_elem_ptr : 
-                bool }
-
-type backend = { b_key : char list; b_accepts : char list;
-                 b_table : cspec list; b_coder : coder }
-
-type cenv = { c_backends : backend list; c_kinds : mdkind list;
-              c_default_types : (char list * (((char list * char list) * char list) * nat)
-                                list) list }
-
-type mval =
-| MStr of char list
-| MBool of bool
-| MList of char list list
-
-type mdict = (char list * mval) list
-
-val md_get : char list -> mdict -> mval option
-
-val md_has : char list -> mdict -> bool
-
-val unmodelled : 'a1 result
-
-val req_str : char list -> mdict -> char list result
-
-val req_bool : char list -> mdict -> bool result
-
-val req_list : char list -> mdict -> char list list result
-
-val find_kind : char list -> mdkind list -> mdkind option
-
-val unexpected_key : mdkind -> mdict -> bool
-
-val spec_of_class :
-  char list -> char list -> char list list -> cclass -> char list ->
-  char list -> nat -> char list list -> cspec
-
-val process_decl : mdkind list -> mdict -> cspec result
-
-val process_metadata : mdkind list -> mdict list -> cspec list result
-
-val build_collection_callback : backend -> cspec -> cspec result
-
-val check_backends : backend -> cspec list -> unit result
-
-val find_last : char list -> cspec list -> cspec option
-
-val lookup_collection : backend -> cspec list -> char list -> cspec option
-
-type uname = { un_base : char list; un_idx : nat }
-
-val render_name : uname -> char list
-
-val lower_char : char -> char
-
-val lower : char list -> char list
-
-type vdecl = { vd_type : char list; vd_name : uname }
-
-type stmt =
-| SArb of char list
-| SSet of uname * char list
-| SBlk of vdecl list * stmt list
-
-type gstate = { g_vars : vdecl list; g_stmts : stmt list;
-                g_class : vdecl list; g_book : stmt list;
-                g_inc : char list list; g_libs : char list list; g_ctr : 
-                nat }
-
-val add_unique : char list -> char list list -> char list list
-
-val add_all : char list list -> char list list -> char list list
-
-type arg =
-| AStr of char list
-| AOther
-
-type use = { u_name : char list; u_args : arg list }
-
-type rep_kind =
-| RVar
-| RColl
-
-type cpv = { v_args : char list list; v_includes : char list list;
-             v_libs : char list list; v_code : char list list;
-             v_result : char list; v_rep : rep_kind; v_spec : cspec;
-             v_fields : (vdecl * char list) list }
-
-val param_name : char list
-
-val compose : pattern -> pattern -> pattern
-
-val line_env : cspec -> char list -> henv
-
-val running_code : coder -> cspec -> char list -> char list list
-
-val token_fields : coder -> cspec -> uname -> (vdecl * char list) list
-
-val class_token : uname
-
-val get_collection : coder -> cspec -> arg list -> nat -> (cpv * nat) result
-
-val cpp_string_literal : char list -> char list
-
-type rep = { r_kind : rep_kind; r_name : uname; r_type : char list;
-             r_pd : nat; r_elem : char list; r_pd_elem : nat }
-
-val process_ast_node : cpv -> char list -> gstate -> gstate * rep
-
-val deref_expr : rep -> char list
-
-val wrap_deref : nat -> char list -> char list
-
-val member_access : char list -> nat -> nat -> char list
-
-val emit_decl : vdecl -> char list
-
-val emit_stmt : stmt -> char list list
-
-val emit_stmts : stmt list -> char list list
-
-val bank_of : use -> char list
-
-val find_uses :
-  backend -> cspec list -> use list -> nat -> ((cpv * char list) list * nat)
-  result
-
-val translate_uses : (cpv * char list) list -> gstate -> gstate * rep list
-
-val empty_gstate : nat -> gstate
-
-val run_query :
-  cenv -> backend -> mdict list -> use list -> (gstate * rep list) result
-
-val d_mval : sexp -> mval option
-
-val d_kv : sexp -> (char list * mval) option
-
-val d_mdict : sexp -> mdict option
-
-val d_arg : sexp -> arg option
-
-val d_use : sexp -> use option
-
-val find_backend : char list -> backend list -> backend option
-
-val s_decl : vdecl -> sexp
-
-val s_rep : rep -> sexp
-
-val s_pkg : (gstate * rep list) -> sexp
-
-val run_query_wire : cenv -> sexp -> sexp
-
-val run_subst_wire : sexp -> sexp
-
-val s_hole : hole -> char list
-
-val s_pattern : pattern -> sexp
-
-val s_spec : cspec -> sexp
-
-val run_tables_wire : cenv -> sexp
-
-val atlas_table : cspec list
-
-val atlas_coder : coder
-
-val atlas_backend : backend
-
-val cms_aod_table : cspec list
-
-val cms_aod_coder : coder
-
-val cms_aod_backend : backend
-
-val cms_miniaod_table : cspec list
-
-val cms_miniaod_coder : coder
-
-val cms_miniaod_backend : backend
-
-val md_kinds : mdkind list
-
-val default_types :
-  (char list * (((char list * char list) * char list) * nat) list) list
-
-val coll_env : cenv
 
 val dispatch : char list -> sexp -> sexp
